@@ -44,7 +44,7 @@ type Plan struct {
 	Restart int      `json:"restart,omitempty"` // aggregator (1-based) that restarts between prep rounds, 0 none
 }
 
-var faults = []string{"", "", "", "input-flip", "input-trunc", "input-swap", "public-flip", "nonce", "prepshare-flip", "prepshare-swap", "prepmsg-flip", "malicious-share", "lost"}
+var faults = []string{"", "", "", "input-flip", "input-trunc", "input-swap", "public-flip", "nonce", "prepshare-flip", "prepshare-swap", "prepmsg-flip", "malicious-share", "lost", "client-invalid-measurement", "prepmsg-blank"}
 
 func gen(r *core.PRNG, tier string) any {
 	p := &Plan{Seed: r.Uint64()}
@@ -149,7 +149,9 @@ func ship[T any](run *core.Run, comp string, x *T, par *Params, corrupt func([]b
 		n.New(par, extra[0])
 	}
 	var uerr error
-	pan, v, st := core.Try(func() { uerr = any(y).(marshaler).UnmarshalBinary(b) })
+	rbuf := append([]byte{}, b...)
+	pan, v, st := core.Try(func() { uerr = any(y).(marshaler).UnmarshalBinary(rbuf) })
+	core.Recycle(rbuf) // the receive buffer is reused once the message is decoded
 	if pan {
 		run.Violate(comp, core.PanicClass(v), "%T.UnmarshalBinary of %d bytes: %s at %s", y, len(b), v, st)
 		return nil, false
@@ -187,6 +189,7 @@ func runVDAF[M, A, AggShare, InputShare, OutShare, PrepShare, PrepState any](
 	v vdaf[M, A, AggShare, InputShare, OutShare, PrepShare, PrepState],
 	meas func(seed uint64, edge string) M,
 	plain func(accepted []M) A,
+	invalid func(seed uint64) (M, bool), // a measurement outside the valid set, if the type has one
 ) {
 	par := v.Params()
 	shares := int(par.Shares())
@@ -209,10 +212,33 @@ func runVDAF[M, A, AggShare, InputShare, OutShare, PrepShare, PrepState any](
 	var prev *pending
 	for ri, rep := range p.Reports {
 		m := meas(rep.Meas, rep.Edge)
+		badMeas := false
+		if rep.Fault == "client-invalid-measurement" {
+			if bm, ok := invalid(rep.Meas); ok {
+				m, badMeas = bm, true
+			} else {
+				rep.Fault = ""
+			}
+		}
 		var nonce count.Nonce
 		copy(nonce[:], data.Bytes(len(nonce)))
 		randb := data.Bytes(int(par.RandSize()))
-		pub, inputs, err := v.Shard(m, &nonce, randb)
+		var pub count.PublicShare
+		var inputs []InputShare
+		var err error
+		pan, pv, stk := core.Try(func() { pub, inputs, err = v.Shard(m, &nonce, randb) })
+		if pan {
+			run.Violate(comp+".Shard", core.PanicClass(pv), "report %d (measurement outside the valid set: %v): %s at %s", ri, badMeas, pv, stk)
+			return
+		}
+		// the client refills its randomness buffer for the next report while this one is still queued
+		core.Recycle(randb)
+		run.Fault("history:client-randomness-buffer-refilled")
+		if badMeas && err != nil {
+			run.Fault("client:invalid-measurement")
+			run.T("client-invalid-measurement", "refused-by-shard")
+			continue // refused at the source: contributes nothing
+		}
 		if err != nil {
 			run.Violate(comp+".Shard", "error-on-valid-measurement", "report %d: %v", ri, err)
 			return
@@ -233,7 +259,7 @@ func runVDAF[M, A, AggShare, InputShare, OutShare, PrepShare, PrepState any](
 		if fault == "public-flip" && !hasJR {
 			fault = "" // no joint randomness: the public share is empty
 		}
-		if fault == "prepmsg-flip" && !hasJR {
+		if (fault == "prepmsg-flip" || fault == "prepmsg-blank") && !hasJR {
 			fault = ""
 		}
 		if fault == "input-swap" && prev == nil {
@@ -367,6 +393,10 @@ func runVDAF[M, A, AggShare, InputShare, OutShare, PrepShare, PrepState any](
 				if mR == nil {
 					rejected = true
 					break
+				}
+				if i == agg && fault == "prepmsg-blank" {
+					// the joint-randomness seed was stripped: the aggregator is handed a message without one
+					mR = new(count.PrepMessage)
 				}
 				var o *OutShare
 				var err error
@@ -517,7 +547,8 @@ func exec(planJSON []byte, run *core.Run) {
 					}
 				}
 				return n
-			})
+			},
+			func(uint64) (bool, bool) { return false, false })
 	case "sum":
 		if bits.Len64(p.A) >= 64 {
 			run.Bad("sum bound")
@@ -551,6 +582,12 @@ func exec(planJSON []byte, run *core.Run) {
 					n += x
 				}
 				return n
+			},
+			func(s uint64) (uint64, bool) {
+				if p.A == ^uint64(0) {
+					return 0, false
+				}
+				return []uint64{p.A + 1, ^uint64(0), p.A + 1 + s%(^uint64(0)-p.A)}[s%3], true
 			})
 	case "sumvec":
 		l, b, c := uint(p.A), uint(p.B), uint(p.C)
@@ -586,6 +623,22 @@ func exec(planJSON []byte, run *core.Run) {
 					}
 				}
 				return out
+			},
+			func(s uint64) ([]uint64, bool) {
+				r := core.NewPRNG(s)
+				switch s % 4 {
+				case 0: // one entry just above the bit width
+					out := make([]uint64, l)
+					out[r.Intn(int(l))] = 1 << b
+					return out, true
+				case 1:
+					out := make([]uint64, l)
+					out[r.Intn(int(l))] = ^uint64(0)
+					return out, true
+				case 2:
+					return make([]uint64, l+1), true
+				}
+				return make([]uint64, l-1), true
 			})
 	case "histogram":
 		l, c := uint(p.A), uint(p.B)
@@ -614,6 +667,9 @@ func exec(planJSON []byte, run *core.Run) {
 					out[x]++
 				}
 				return out
+			},
+			func(s uint64) (uint64, bool) {
+				return []uint64{uint64(l), uint64(l) + 1, ^uint64(0), uint64(l) + s%1000}[s%4], true
 			})
 	case "mhcv":
 		l, w, c := uint(p.A), uint(p.B), uint(p.C)
@@ -652,6 +708,23 @@ func exec(planJSON []byte, run *core.Run) {
 					}
 				}
 				return out
+			},
+			func(s uint64) ([]bool, bool) {
+				r := core.NewPRNG(s)
+				switch s % 3 {
+				case 0: // one more one-entry than the weight bound allows
+					if w >= l {
+						return nil, false
+					}
+					out := make([]bool, l)
+					for _, i := range r.Perm(int(l))[:w+1] {
+						out[i] = true
+					}
+					return out, true
+				case 1:
+					return make([]bool, l+1), true
+				}
+				return make([]bool, l-1), true
 			})
 	default:
 		run.Bad("type")
